@@ -156,6 +156,19 @@ def emit(meta, gen_path, wrap_impls=None):
     lines = meta["preamble"].split("\n")
     text = meta["preamble"].rstrip("\n") + "\n\nverus! {\n\n"
     linemap = []
+    # named lemma obligations: a preamble proof fn preceded by a `//@@LEMMA <props>` line (ends at the next line that is `}`)
+    lemmas = []
+    plines = meta["preamble"].rstrip("\n").split("\n")
+    for i, ln in enumerate(plines):
+        m = re.match(r"^//@@LEMMA\s+(.*)$", ln)
+        if not m: continue
+        mm = re.match(r"^pub proof fn (\w+)", plines[i + 1]) if i + 1 < len(plines) else None
+        if not mm: continue
+        j = i + 1
+        while j < len(plines) and plines[j] != "}": j += 1
+        lemmas.append({"name": mm.group(1), "props": m.group(1).split(), "src": "units/" + meta["unit"] + "/preamble.rs"})
+        linemap.append({"fn": mm.group(1), "start": i + 2, "end": j + 1, "clauses": []})
+    meta["lemmas"] = lemmas
     cur_line = text.count("\n") + 1
     groups = {}
     order = []
